@@ -401,4 +401,42 @@ def _base_store(ctx):
     _t.r_base_store(ctx)
 
 
-RULES = [r_fol_table, r_single_route, r_expr, r_force_apply, r_drain_constraints, _base_store, r_own_assertions]
+def r_effect_only_constraints(ctx):
+    """'an optional constraint may be left unapplied', 'an operand of a combination is not enforced on its own', 'the listed
+    constraints ... admit no schedule': all three work through the constraint's own assertion list (guarded by `_applied`, skipped
+    when created-from-assertion, labelled with the constraint's name in debug mode).  A constraint class that asserts nothing and
+    acts through a side effect on another element instead escapes all three: its effect is there whether it is applied or not,
+    as an operand or not, and a conflict through it names nobody."""
+    proj = ctx.project
+    n = 0
+    for c in proj.subclasses("Constraint"):
+        if c.name in BASE_NAMES or c.name in CONNECTIVES:
+            continue
+        runs = runs_of(ctx, Entry("init", cls=c.name, opaque=OPAQUE))
+        live = [r for r in runs if not r.rejected]
+        if not live:
+            continue
+        n += 1
+        own_any = any(e.owner == SELF for r in live for e in r.emissions)
+        effects = sorted({show(ev.data["container"])[:60] for r in live for ev in r.events_of("store")
+                          if isinstance(ev.data["container"], tuple) and ev.data["container"][0] == "attr"
+                          and ev.data["container"][1] not in (SELF, ("glob", "processscheduler.base.active_problem"))
+                          and not any(s_ == SELF for s_ in [ev.data["container"][1]])})
+        def has_effect(r):
+            return any(isinstance(ev.data["container"], tuple) and ev.data["container"][0] == "attr"
+                       and ev.data["container"][1] not in (SELF, ("glob", "processscheduler.base.active_problem"))
+                       for ev in r.events_of("store"))
+        # guarded: the effect is absent on the paths where the constraint is declared optional
+        guarded = not any(has_effect(r) for r in live if dict(r.decisions).get("bool(self.optional)") is True)
+        if not own_any and effects and not guarded:
+            ctx.violation("R-EFFECT-ONLY", f"{c.name}.__init__", "acts through a side effect, asserts nothing",
+                          f"{c.name} asserts nothing of its own and writes {effects}: declared optional, or used as an operand of Or / "
+                          f"Implies / Not, its effect is enforced all the same (an optional unloading of an empty buffer with lower bound 0 "
+                          f"makes the problem infeasible), and in debug mode a conflict through it names no constraint",
+                          first_line(proj, c.name))
+        else:
+            ctx.ok("R-EFFECT-ONLY", f"{c.name}: acts through its own assertion list", nontrivial=False)
+    ctx.floor("R-EFFECT-ONLY", "constraint classes", n, 30)
+
+
+RULES = [r_effect_only_constraints, r_fol_table, r_single_route, r_expr, r_force_apply, r_drain_constraints, _base_store, r_own_assertions]
